@@ -126,9 +126,8 @@ let fmt_outcome = function
   | OMismatch a -> "MISMATCH " ^ enc a
   | OMiss -> "MISS"
   | OFail k -> "FAIL " ^ dec_of_n k
-let parse_cp s = match String.split_on_char ':' s with
-  | ["before_create"] -> BeforeCreate | ["after_create"] -> AfterCreate | ["after_write"] -> AfterWrite
-  | ["mid"; n] -> MidWrite (nat_of_int (int_of_string n)) | _ -> failwith "crash point"
+let parse_cp = function
+  | "before_rename" -> BeforeRename | "after_rename" -> AfterRename | _ -> failwith "crash point"
 let parse_step s = match String.split_on_char ';' s with
   | [p; now; e; srv] -> { st_policy = parse_policy p; st_now = n_of_dec now; st_expected = dec_opt e; st_server = parse_server srv }
   | _ -> failwith "step"
